@@ -44,6 +44,8 @@ struct ErasedS<T>(T);
 struct DedupS<T>(T);
 struct AsMapS<T>(T);
 struct AndS<L, R>(L, R);
+struct SpanS<T>(T);
+struct MetricS<T>(T);
 
 impl Shape for EmptyS {
     type Out = emit::Empty;
@@ -123,7 +125,7 @@ impl Shape for CtxtS {
         "ctxt".into()
     }
     fn build(t: &Value) -> Self::Out {
-        ctxt_snapshot(&pairs(t))
+        ctxt_of(t)
     }
 }
 impl Shape for ExtentS {
@@ -207,6 +209,24 @@ impl<T: Shape> Shape for AsMapS<T> {
         leak(T::build(&t["t"])).as_map()
     }
 }
+impl<T: Shape> Shape for SpanS<T> {
+    type Out = &'static emit::span::Span<'static, T::Out>;
+    fn name() -> String {
+        format!("span({})", T::name())
+    }
+    fn build(t: &Value) -> Self::Out {
+        span_view(T::build(&t["t"]))
+    }
+}
+impl<T: Shape> Shape for MetricS<T> {
+    type Out = &'static emit::metric::Metric<'static, T::Out>;
+    fn name() -> String {
+        format!("metric({})", T::name())
+    }
+    fn build(t: &Value) -> Self::Out {
+        metric_view(T::build(&t["t"]))
+    }
+}
 impl<L: Shape, R: Shape> Shape for AndS<L, R> {
     type Out = And<L::Out, R::Out>;
     fn name() -> String {
@@ -223,7 +243,7 @@ fn shape_of(t: &Value) -> String {
     match op {
         "arr" => format!("arr{}", t["kvs"].as_array().unwrap().len()),
         "and" => format!("and({},{})", shape_of(&t["l"]), shape_of(&t["r"])),
-        "opt" | "ref" | "box" | "arc" | "erased" | "dedup" | "asmap" => format!("{op}({})", shape_of(&t["t"])),
+        "opt" | "ref" | "box" | "arc" | "erased" | "dedup" | "asmap" | "span" | "metric" => format!("{op}({})", shape_of(&t["t"])),
         _ => op.to_string(),
     }
 }
@@ -317,6 +337,18 @@ macro_rules! d2_and_l {
         few_leaves!(d2_and_r, ($l, $m));
     };
 }
+// the Span / Metric views over every leaf, bare and one level deeper
+macro_rules! reg_views {
+    ($t:ty, ($m:ident)) => {
+        reg::<SpanS<$t>>($m);
+        reg::<MetricS<$t>>($m);
+        reg::<DedupS<SpanS<$t>>>($m);
+        reg::<ErasedS<MetricS<$t>>>($m);
+        reg::<AndS<SpanS<$t>, ArrS<3>>>($m);
+        reg::<AndS<PairS, MetricS<$t>>>($m);
+        reg::<AndS<ExtentS, SpanS<$t>>>($m);
+    };
+}
 macro_rules! d2_unary2 {
     ($t:ty, ($m:ident)) => {
         reg_unary!(DedupS<$t>, ($m));
@@ -334,6 +366,7 @@ fn registry() -> HashMap<String, Runner> {
     all_leaves!(reg_and_l, (m));
     few_leaves!(d2_and_l, (m));
     few_leaves!(d2_unary2, (m));
+    all_leaves!(reg_views, (m));
     map
 }
 
@@ -348,9 +381,18 @@ fn main() {
     let mut drift: Vec<Value> = Vec::new();
     let mut n_static = 0u64;
     let mut ops_seen: BTreeMap<String, u64> = BTreeMap::new();
+    let mut other_resolution = 0u64;
     for_each_case(&args[1], |_, case| {
-        rep.cases += 1;
         let tree = &case["tree"];
+        let (applies, alien) = resolution_applies(tree);
+        if alien && drift.len() < 20 {
+            drift.push(json!({"what": "a ctxt snapshot holds a pair no pushed frame has", "tree": tree}));
+        }
+        if !applies {
+            other_resolution += 1;
+            return;
+        }
+        rep.cases += 1;
         let keys = keys_of(case);
         let ordered = !has_unordered(case);
         let shape = shape_of(tree);
@@ -393,6 +435,7 @@ fn main() {
         }
     });
     rep.extra.insert("static_cases".into(), json!(n_static));
+    rep.extra.insert("cases_of_another_ctxt_resolution".into(), json!(other_resolution));
     rep.extra.insert("static_shapes".into(), json!(reg.len()));
     rep.extra.insert("drift".into(), json!(drift));
     rep.extra.insert("ops_seen".into(), json!(ops_seen));
